@@ -313,7 +313,11 @@ CLAIMED = {
              "group's frames - any number in flight, deliveries in any order, losses, injections of sterile frames - a frame that goes back to the bus without "
              "the group's program has no enabled write datagrams (invariant: enabled frames carry an odd index, bypassing frames an even one; induction over "
              "event lists). Tie: the REAL sterile() and the REAL generated FastSyncGroup program (kernel-validated Coq ISA model) on frames with right and wrong "
-             "working counters, output enabled and disabled, against the model; the counter logic against the real dispatcher bytecode in C22's check.",
+             "working counters, output enabled and disabled, against the model; the counter logic against the real dispatcher bytecode in C22's check. The user-space half "
+             "(Ecat/UserLoop.v: FastSyncGroup.run / SyncGroupBase.run / update_devices with its timeout-and-resend branch) has its own theorems "
+             "C21_user_space_sends_sterile / C21_user_loop_invariant: whatever comes back or is lost, for any number of cycles, every cyclic frame handed to the "
+             "socket is the sterile one; tied by running the REAL FastSyncGroup.run() on the simulated bus against scripts of sterile / activated / lost frames "
+             "and comparing every frame it sends with the model's.",
         note=TB + "Partial: the abstraction of a frame to (index, enabled) and of the program run to 'enables the writes and gets the new index' is tied to the "
              "code only through the two correspondences; the devices' own output computation in that pass is C19 / C26.",
         technique="Coq invariant proof over all frame histories + execution of the real group program and dispatcher bytecode in a kernel-validated ISA model",
